@@ -14,6 +14,7 @@ import (
 	"testing"
 
 	"github.com/zitadel/saml/pkg/provider"
+	"github.com/muhlemmer/httpforwarded"
 	"pgregory.net/rapid"
 
 	"verif/harness/ev"
@@ -22,7 +23,7 @@ import (
 	"verif/harness/xt"
 )
 
-const c19Rule = "rapid: (static) issuer strings assembled from a URL grammar with hostile productions - scheme spellings (https, http, HTTPS, ftp, javascript, empty, missing), authority forms (reg-name, IPv4, IPv6 literal, port, port only, userinfo, empty, missing '//'), paths, query and fragment variants (absent, empty, '&', ';', 'a=b', encoded), control characters and blanks - x insecure on/off, through ValidateIssuer and NewProvider(StaticIssuer); an independent RFC 3986 (appendix B) splitter decides the must-reject set (empty; no scheme; scheme other than https, or http without the insecure flag; no or empty authority / empty host; non-empty query or fragment) and the must-accept set (canonical lower-case https://host[:port][/path], http only with the flag); everything else is executed and counted, not asserted. (derived) path configurations (empty, with / without leading slash, nested, trailing slash) x insecure x configured header lists (default Forwarded, custom names) x requests with a Host and header lines built from the RFC 7239 grammar (several lines, several elements, quoted hosts, parameter-name case, for/by/proto noise) or from a malformed-syntax generator, plus X-Forwarded-Host / X-Forwarded-Proto / request-path noise, hosts of the maximum DNS length and longer, one factory value configuring two providers with opposite insecure settings, and 16 concurrent requests with different hosts through one issuer function. Oracle: grammar-built headers - the issuer function returns exactly scheme(flag) + '://' + first host of the first configured header that carries one (else the request Host) + path with leading slash; malformed headers - the result starts with the scheme chosen by the flag, ends with the configured path, and its middle is the request Host or a host= value literally present in a configured header; the served metadata's entityID starts with the same string. Non-trivial: a must-reject string that net/url parses without error, or >= 2 forwarded elements / header lines. Distinct by production vector."
+const c19Rule = "rapid: (static) issuer strings assembled from a URL grammar with hostile productions - scheme spellings (https, http, HTTPS, ftp, javascript, empty, missing), authority forms (reg-name, IPv4, IPv6 literal, port, port only, userinfo, empty, missing '//'), paths, query and fragment variants (absent, empty, '&', ';', 'a=b', encoded), control characters and blanks - x insecure on/off, through ValidateIssuer and NewProvider(StaticIssuer); an independent RFC 3986 (appendix B) splitter decides the must-reject set (empty; no scheme; scheme other than https, or http without the insecure flag; no or empty authority / empty host; non-empty query or fragment) and the must-accept set (canonical lower-case https://host[:port][/path], http only with the flag); everything else is executed and counted, not asserted. (derived) path configurations (empty, with / without leading slash, nested, trailing slash) x insecure x configured header lists (default Forwarded, custom names) x requests with a Host and header lines built from the RFC 7239 grammar (several lines, several elements, quoted hosts, parameter-name case, for/by/proto noise, empty pairs) or from a malformed-syntax generator, plus X-Forwarded-Host / X-Forwarded-Proto / request-path noise, hosts of the maximum DNS length and longer, one factory value configuring two providers with opposite insecure settings, and 16 concurrent requests with different hosts through one issuer function. Oracle: grammar-built headers - the issuer function returns exactly scheme(flag) + '://' + first host of the first configured header that carries one (else the request Host) + path with leading slash; malformed headers - the result starts with the scheme chosen by the flag, ends with the configured path, and its middle is the request Host or a host= value literally present in a configured header; the served metadata's entityID starts with the same string. Non-trivial: a must-reject string that net/url parses without error, or >= 2 forwarded elements / header lines. Distinct by production vector."
 
 type C19Case struct {
 	Kind     string      `json:"kind"` // static | derived
@@ -186,7 +187,15 @@ func genForwardedElement(t *rapid.T, withHost bool) (string, string) {
 	if len(pairs) > 1 && rapid.Bool().Draw(t, "rotate") {
 		pairs = append(pairs[1:], pairs[0])
 	}
-	return strings.Join(pairs, rapid.SampledFrom([]string{";", ";", "; "}).Draw(t, "pairsep")), host
+	el := strings.Join(pairs, rapid.SampledFrom([]string{";", ";", "; "}).Draw(t, "pairsep"))
+	// forwarded-element = [ forwarded-pair ] *( ";" [ forwarded-pair ] ): a pair may be empty, at the end too
+	switch rapid.IntRange(0, 79).Draw(t, "emptypair") {
+	case 0:
+		el += ";"
+	case 1:
+		el = strings.Replace(el, ";", ";;", 1)
+	}
+	return el, host
 }
 
 var c19Malformed = []string{"host=\"unterminated", "host", "=x", ";;;", "host==a", "host=a b", "host=\"a\"b", ",", "host=a;host", "host=\x00", "host=a,,host=b", "\"", "host=\"a\\", "for=1;host", "host = spaced.example", "host=\"q.example\";=", "HOST=ok.example;bad"}
@@ -259,6 +268,34 @@ func genC19Case(t *rapid.T) C19Case {
 		return genC19Static(t)
 	}
 	return genC19Derived(t)
+}
+
+// c19WithoutEmptyPairs returns the request with the empty forwarded-pairs removed from the lines of the configured headers.
+func c19WithoutEmptyPairs(req *http.Request, configured map[string]bool) (*http.Request, bool) {
+	twin := req.Clone(req.Context())
+	changed := false
+	for name, lines := range twin.Header {
+		if !configured[http.CanonicalHeaderKey(name)] {
+			continue
+		}
+		for i, line := range lines {
+			var els []string
+			for _, el := range strings.Split(line, ",") {
+				var pairs []string
+				for _, p := range strings.Split(el, ";") {
+					if strings.TrimSpace(p) != "" {
+						pairs = append(pairs, p)
+					}
+				}
+				els = append(els, strings.Join(pairs, ";"))
+			}
+			if n := strings.Join(els, ","); n != line {
+				lines[i] = n
+				changed = true
+			}
+		}
+	}
+	return twin, changed
 }
 
 // reference parser for grammar-built Forwarded lines (only what the generator emits)
@@ -395,7 +432,30 @@ func c19Run(c C19Case) (vs []*ev.Violation, class string) {
 			}
 		}
 		if got != scheme+want+path {
-			add("derived-issuer", "config (path %q, headers %v, insecure %v), Host %q, lines %v: issuer %q, expected %q", c.Path, c.Headers, c.Insecure, c.Host, c.Lines, got, scheme+want+path)
+			// root cause of the known finding: the header parser (github.com/muhlemmer/httpforwarded) has no notion of the empty
+			// forwarded-pair the grammar allows - a trailing ';' ends the parsing of every remaining line, an empty pair elsewhere
+			// is a syntax error that discards the header. Recognised by a twin: the same lines without the empty pairs must give
+			// the expected issuer.
+			key := "derived-issuer"
+			if twin, changed := c19WithoutEmptyPairs(req, configured); changed {
+				twinGot := ""
+				func() {
+					defer func() { recover() }()
+					twinGot = fn(twin)
+				}()
+				// ... and the issuer is exactly what that parser makes of the configured headers, taken one after the other
+				model := c.Host
+				for _, h := range c.Headers {
+					if hosts, err := httpforwarded.ParseParameter("host", req.Header[http.CanonicalHeaderKey(h)]); err == nil && len(hosts) > 0 {
+						model = hosts[0]
+						break
+					}
+				}
+				if twinGot == scheme+want+path && got == scheme+model+path {
+					key = "forwarded-empty-pair-not-skipped"
+				}
+			}
+			add(key, "config (path %q, headers %v, insecure %v), Host %q, lines %v: issuer %q, expected %q", c.Path, c.Headers, c.Insecure, c.Host, c.Lines, got, scheme+want+path)
 		}
 	} else {
 		class = "derived/malformed"
